@@ -1,7 +1,14 @@
 SPECIFICATION GenSpec
 CONSTANTS
   Fams = {"lex", "text", "control", "while", "try", "tryloop", "apply", "loader", "ws", "errors"}
-  Grow = 0
+  Grow = 1
   SLen = 0
   Fuel = 3
+INVARIANT TypeOK
+INVARIANT ErrorLinesInFile
+INVARIANT WellFormedEvaluates
+INVARIANT LexRoundTrip
+INVARIANT LiteralText
+INVARIANT EscapedWhereInEffect
+INVARIANT OutputIsSegments
 CHECK_DEADLOCK FALSE
